@@ -7,6 +7,7 @@ handshake result exactly once).  Subscribers are assumed not to lag behind the b
 capacity (a lagging receiver gets `Lagged(n)` instead of events; stated, not modelled).
 -/
 import AnemoModel.Lemmas.Peers
+import AnemoModel.PeersGen
 namespace Anemo
 open Gen
 
@@ -246,5 +247,28 @@ example : FreshOps {} exOps := ⟨by decide, by decide⟩
 example : (({} : Active).run 5 exOps).peers = [7, 9] ∧ (({} : Active).run 5 exOps).closed = [1, 2] ∧
     (({} : Active).run 5 exOps).log =
       [.newPeer 7, .newPeer 9, .lostPeer 7 .requested, .newPeer 7, .lostPeer 9 .requested, .newPeer 9] := by decide
+
+
+/-- **The model of `add` is the translation of the source**: running the effect lists that the
+translator read off the arms of `ActivePeersInner::add` (with the translated tie-break) gives exactly
+the hand-written `Active.add` - same entries, same events in the same order, same closed connections,
+same result.  All theorems of C04, C05, C09 and C10 about `add` are therefore about the code as it is. -/
+theorem C04_add_is_translated (own : PeerId) (c : Conn) (s : Active) :
+    s.addGen own c = ((s.add own c).1, some (s.add own c).2) := by
+  unfold Active.addGen Active.add
+  cases hl : lookupConn s.conns c.peer with
+  | none =>
+    simp [runAddEffs, Gen.addVacantEffs, Gen.addTailEffs, eraseConn_none _ _ hl]
+  | some old =>
+    have ht : Gen.tieBreakGen own c.peer old.origin c.origin = tieBreak own c.peer old.origin c.origin := by
+      cases old.origin <;> cases c.origin <;> rfl
+    by_cases hb : tieBreak own c.peer old.origin c.origin = true
+    · simp [runAddEffs, Gen.addWinEffs, Gen.addTailEffs, ht, hb]
+    · simp [runAddEffs, Gen.addLoseEffs, Gen.addTailEffs, ht, hb]
+
+/-- the shapes of `remove`, `remove_with_stable_id`, `subscribe` (one lock), the handler's exit (deregister by
+stable id, before the tear-down of in-flight requests) and `try_peer_id` (first certificate) were recognised
+by the translator on this run -/
+theorem C04_registry_shape_checked : Gen.registryShapeChecked = true := rfl
 
 end Anemo
